@@ -104,11 +104,7 @@ Definition base_of (c : cfg) : base_client :=
 Definition op_flags : pflags := {| f_snake := true; f_trim := false; f_reserved := false |}.
 Definition op_module (n : chars) : chars := process_name op_flags n.
 
-(* d[k] = v on a dict represented by its keys in insertion order *)
-Definition dict_add (k : chars) (keys : list chars) : list chars :=
-  if mem_chars k keys then keys else keys ++ [k].
-
-Record pstate := { ps_files : list chars;         (* _result_types_files keys *)
+Record pstate := { ps_files : list chars;         (* _result_types_files keys, insertion order *)
                    ps_init : list iimport;
                    ps_methods : list chars }.     (* names of the methods appended to the client class *)
 
@@ -121,15 +117,17 @@ Definition add_operation (c : cfg) (o : op) (st : pstate) : result pstate :=
   | None => Refused Anonymous                                   (* "Query without name." *)
   | Some n =>
       let m := op_module n in
-      if o_bad_mixin o then Refused BadMixinArgs                (* ResultTypesGenerator(...) *)
+      if mem_chars (py m) (ps_files st) then Refused DuplicateFiles   (* file_name in _result_types_files *)
+      else if o_bad_mixin o then Refused BadMixinArgs           (* ResultTypesGenerator(...) *)
       else if is_sub (o_kind o) && negb (c_async c) then Refused SubscriptionSync   (* add_method *)
-      else Ok {| ps_files := dict_add (py m) (ps_files st);
+      else Ok {| ps_files := ps_files st ++ [py m];
                  ps_init := add_import (o_public o) m (ps_init st);
                  ps_methods := ps_methods st ++ [m] |}
   end.
 
-(* the tests of add_operation / add_method as a function of the operation alone (used in statements) *)
-Definition op_refusal (c : cfg) (o : op) : option refusal :=
+(* ---- declarative counterparts used in the statements ---- *)
+(* the tests that depend on the operation alone *)
+Definition op_static_refusal (c : cfg) (o : op) : option refusal :=
   match o_name o with
   | None => Some Anonymous
   | Some _ => if o_bad_mixin o then Some BadMixinArgs
@@ -137,12 +135,17 @@ Definition op_refusal (c : cfg) (o : op) : option refusal :=
               else None
   end.
 
-(* keys of _result_types_files after all operations: module file names in first-occurrence order *)
-Definition result_files_from (ops : list op) (acc : list chars) : list chars :=
-  fold_left (fun acc o => match o_name o with
-                          | Some n => dict_add (py (op_module n)) acc
-                          | None => acc end) ops acc.
-Definition result_files (ops : list op) : list chars := result_files_from ops [].
+(* module file of an operation (anonymous operations never get that far) *)
+Definition op_file (o : op) : chars :=
+  match o_name o with Some n => py (op_module n) | None => [] end.
+Definition result_files (ops : list op) : list chars := map op_file ops.
+
+(* the tests of one operation given the module files of the operations before it *)
+Definition op_refusal (c : cfg) (seen : list chars) (o : op) : option refusal :=
+  match o_name o with
+  | None => Some Anonymous
+  | Some _ => if mem_chars (op_file o) seen then Some DuplicateFiles else op_static_refusal c o
+  end.
 
 Fixpoint add_operations (c : cfg) (ops : list op) (st : pstate) : result pstate :=
   match ops with
@@ -160,11 +163,19 @@ Definition includes (c : cfg) : list chars :=
   c_include c ++ (if c_custom_ops c then [base_operation_file] else [])
               ++ (if bc_default (base_of c) then [py exceptions_stem] else []).
 
-(* the list checked by _validate_unique_file_names *)
-Definition checked_names (c : cfg) (result_files : list chars) : list chars :=
+Definition custom_files (c : cfg) (s : summary) : list chars :=
+  if c_custom_ops c then
+    [custom_typing_file; custom_fields_file]
+    ++ (if s_has_query s then [custom_queries_file] else [])
+    ++ (if s_has_mutation s then [custom_mutations_file] else [])
+  else [].
+
+(* the list checked by _validate_unique_file_names: every file generate() is going to write
+   (and the fragments module name even when no fragments module is written) *)
+Definition checked_names (c : cfg) (s : summary) (result_files : list chars) : list chars :=
   [py (c_client_file c); bc_file (base_of c); py base_model_stem;
    py (c_enums_mod c); py (c_inputs_mod c); py (c_frags_mod c)]
-  ++ result_files ++ includes c.
+  ++ result_files ++ includes c ++ [init_file] ++ custom_files c s.
 
 (* _generate_fragments: exclude = unpacked - used_as_mixins; nothing is written when every fragment
    is excluded *)
@@ -172,13 +183,6 @@ Definition frag_excluded (s : summary) (f : chars) : bool :=
   mem_chars f (s_frag_unpacked s) && negb (mem_chars f (s_frag_mixins s)).
 Definition frags_written (s : summary) : bool :=
   existsb (fun f => negb (frag_excluded s f)) (s_frag_names s).
-
-Definition custom_files (c : cfg) (s : summary) : list chars :=
-  if c_custom_ops c then
-    [custom_typing_file; custom_fields_file]
-    ++ (if s_has_query s then [custom_queries_file] else [])
-    ++ (if s_has_mutation s then [custom_mutations_file] else [])
-  else [].
 
 Definition written_files (c : cfg) (s : summary) (result_files : list chars) : list chars :=
   [py (c_inputs_mod c)]                                            (* _generate_input_types *)
@@ -204,20 +208,15 @@ Definition generate (c : cfg) (s : summary) (ops : list op) : result package :=
   match add_operations c ops pstate0 with
   | Refused r => Refused r
   | Ok st =>
-      if has_dup (checked_names c (ps_files st)) then Refused DuplicateFiles else
+      if has_dup (checked_names c s (ps_files st)) then Refused DuplicateFiles else
       let w := written_files c s (ps_files st) in
       let imps := final_imports c s (ps_init st) in
       Ok {| written := w; reported := sort_chars w; init_imports := imps; p_all := init_all imps |}
   end.
 
-(* file names the uniqueness check does not look at although generate() writes them (finding F28) *)
-Definition unchecked_files (c : cfg) (s : summary) : list chars := custom_files c s ++ [init_file].
-Definition g_c04_files (c : cfg) (s : summary) (ops : list op) : bool :=
-  match add_operations c ops pstate0 with
-  | Ok st => forallb (fun f => negb (mem_chars f (checked_names c (ps_files st)))) (unchecked_files c s)
-             && negb (has_dup (unchecked_files c s))
-  | Refused _ => true
-  end.
+(* names of the methods add_method appends to the client class, in order *)
+Definition ps_methods_of (c : cfg) (ops : list op) : list chars :=
+  match add_operations c ops pstate0 with Ok st => ps_methods st | Refused _ => [] end.
 
 (* ---- sexp interface ---- *)
 Definition dKind (e : sexp) : option okind :=
@@ -290,7 +289,7 @@ Definition run_package (e : sexp) : sexp :=
           match generate c' s' ops' with
           | Refused r => L [A "refused"; sRefusal r]
           | Ok p => L [A "ok"; sCs (written p); sCs (reported p); L (map sImport (init_imports p));
-                       sCs (p_all p); sB (g_c04_files c' s' ops')]
+                       sCs (p_all p); sCs (ps_methods_of c' ops')]
           end
       | None, _, _ => sErr "package: bad cfg"
       | _, None, _ => sErr "package: bad summary"
